@@ -77,11 +77,20 @@ pub fn gen_len(rng: &mut Rng) -> usize {
         4..=6 => rng.range(13, 48),
         // beyond the small sizes: across 64, 256 and (rarely) 1024
         7 => rng.range(49, 140),
-        8 => match rng.below(640) {
+        8 => match rng.below(6400) {
+            // beyond 2^20 bytes / 2^20 characters: about one text in 250 000, because every
+            // step on such a sentence costs a second
+            0 => {
+                if rng.chance(1, 2) {
+                    rng.range(360_000, 420_000)
+                } else {
+                    rng.range(1_050_000, 1_150_000)
+                }
+            }
             // beyond 2^16: rare, because every step on such a sentence costs milliseconds
-            0 => rng.range(66_000, 140_000),
-            1..=40 => rng.range(3000, 10000),
-            41..=200 => rng.range(900, 1100),
+            1..=10 => rng.range(66_000, 140_000),
+            11..=410 => rng.range(3000, 10000),
+            411..=2010 => rng.range(900, 1100),
             _ => rng.range(200, 300),
         },
         _ => rng.range(1, 12),
